@@ -162,6 +162,25 @@ def instantiate (W : World) (n : Name) : InstOut :=
   | none => .noClass
   | some c => if c.isAbstract then .abstr else instChain W (fuelC W) c
 
+/-! ### `new` attempted repeatedly within one VM
+
+`createInstanceFromClassStmt` and `ClassStatement.GetValue` run the abstract test and the completeness
+validation on every call; what persists between two `new` is the class table (`W`, unchanged by `new`) and the
+resolved class statement cached in a literal `new C` node (the same `W` entry). `live`: the objects created so
+far, most recent first. -/
+
+def newStep (W : World) (live : List Name) (n : Name) : InstOut × List Name :=
+  match instantiate W n with
+  | .ok => (.ok, n :: live)
+  | r => (r, live)
+
+def newRun (W : World) : List Name → List Name → List InstOut × List Name
+  | live, [] => ([], live)
+  | live, n :: rest =>
+    let r := newStep W live n
+    let rr := newRun W r.2 rest
+    (r.1 :: rr.1, rr.2)
+
 /-- number of distinct missing entries (what the error message counts) -/
 def missingCount (W : World) (c : ACls) : Option Nat :=
   match collect W c with
